@@ -63,6 +63,9 @@ def mk_trace(module, qualname, payload=0, bad=False):
         if (len(module) + payload) % 3 == 2:
             return CallTrace(fn(module, qualname), {"ok": int}, None, at["x"])
         return CallTrace(fn(module, qualname), at, None, None)
+    if payload >= 2000:
+        # ... and differ only in the ORDER in which a union's members were first seen: equal as types, different as stored rows
+        return CallTrace(fn(module, qualname), {"pY": int}, None, _union_yield(payload))
     if payload >= 1000:
         # traces of one (generator) function that agree in arguments and return type and differ only in what was yielded
         return CallTrace(fn(module, qualname), {"pY": int}, None, _YIELDS[payload % len(_YIELDS)])
@@ -74,8 +77,19 @@ def mk_trace(module, qualname, payload=0, bad=False):
 _YIELDS = [int, str, bytes, type(None)]
 
 
+_UNION_ORDERS = [(int, str), (str, int), (int, str, bytes), (bytes, int, str), (str, bytes, int), (type(None), int), (int, type(None))]
+
+
+def _union_yield(payload):
+    import typing
+
+    return typing.Union[_UNION_ORDERS[payload % len(_UNION_ORDERS)]]
+
+
 def expected_row(module, qualname, payload):
     """Independent of monkeytype.encoding: what identifies the row (module, qualname, payload name)."""
+    if payload >= 2000:
+        return (module, qualname, "pY:Union[" + ",".join(t.__qualname__ for t in _UNION_ORDERS[payload % len(_UNION_ORDERS)]) + "]")
     if payload >= 1000:
         return (module, qualname, "pY:" + _YIELDS[payload % len(_YIELDS)].__qualname__)
     return (module, qualname, f"p{payload}")
@@ -90,7 +104,8 @@ def row_key(r):
     name = names[0] if names else ""
     if name == "pY":
         y = r[3] if isinstance(r, tuple) else r.yield_type
-        name += ":" + (json.loads(y)["qualname"] if y else "None-absent")
+        yd = json.loads(y) if y else None
+        name += ":" + ("None-absent" if yd is None else yd["qualname"] + ("[" + ",".join(e["qualname"] for e in yd["elem_types"]) + "]" if "elem_types" in yd else ""))
     return (mod, qn, name)
 
 
@@ -171,6 +186,8 @@ BATCHES = [
      ("m", "Box[int].get", 0, False), ("m", "Boxi", 0, False), ("m", "is_ok?", 0, False), ("m", "is_okay", 0, False), ("m", "a*b", 0, False), ("m", "a.b", 0, False)],
     [("m", "my_func", 0, False), ("m", "x", 0, True), ("m", "Foo.baz", 0, False), ("m", "my_func", 0, False), ("M", "y", 0, True),
      ("m", "gen_fn", 1000, False), ("m", "gen_fn", 1001, False), ("m2", "gen_fn", 1000, False), ("m", "gen_fn", 1003, False)],
+    [("m", "gen_fn", 2000, False), ("m", "gen_fn", 2001, False), ("m", "gen_fn", 2001, False), ("m", "gen_fn", 2002, False), ("m", "gen_fn", 2003, False),
+     ("m", "gen_fn", 2004, False), ("m2", "gen_fn", 2005, False), ("m2", "gen_fn", 2006, False), ("m", "my_func", 0, False), ("m", "my_func", 0, False)],
 ]
 
 
@@ -192,12 +209,22 @@ def run_history(res, d, ops, tag, queries=None):
         if op[0] == "add":
             target = second if (second is not None and op[2]) else store
             try:
-                target.add([mk_trace(*s) for s in op[1]])
+                if len(op) > 3 and op[3]:
+                    # the route a traced program takes: every trace handed to the store's logger, one flush
+                    from monkeytype.db.base import CallTraceStoreLogger
+
+                    lg = CallTraceStoreLogger(target)
+                    for s in op[1]:
+                        lg.log(mk_trace(*s))
+                    lg.flush()
+                    res.count("adds_through_the_store_logger")
+                else:
+                    target.add([mk_trace(*s) for s in op[1]])
             except Exception as e:
                 res.violation(f"add-raises:{type(e).__name__}", f"add raised {e!r} after {ctx}", {"history": ctx})
                 return
             model.add(op[1])
-            ctx.append(["add", [list(s) for s in op[1]], bool(op[2] and second is not None)])
+            ctx.append(["add", [list(s) for s in op[1]], bool(op[2] and second is not None)] + (["through-logger"] if len(op) > 3 and op[3] else []))
             res.count("adds")
             if any(s[3] for s in op[1]):
                 res.count("batches_with_unserialisable")
@@ -235,7 +262,7 @@ def gen_batch(rng):
     n = rng.choice([0, 1, 2, 3, 5, 8])
     out = []
     for _ in range(n):
-        out.append((rng.choice(MODULES), rng.choice(QUALNAMES), rng.choice([0, 0, 1, 2, 1000, 1001, 1002]), rng.random() < 0.12))
+        out.append((rng.choice(MODULES), rng.choice(QUALNAMES), rng.choice([0, 0, 1, 2, 1000, 1001, 1002, 2000, 2001, 2005, 2006]), rng.random() < 0.12))
     return out
 
 
@@ -249,7 +276,7 @@ def work_histories(p):
             for j, b in enumerate(seq):
                 if variant == 2 and j == 0:
                     ops.append(("second",))
-                ops.append(("add", BATCHES[b], variant == 2 and j % 2 == 1))
+                ops.append(("add", BATCHES[b], variant == 2 and j % 2 == 1, (i + j + variant) % 2 == 1))
                 if variant == 1:
                     ops.append(("reopen",))
             run_history(res, d, ops, f"{p['seed']}_{i}_{variant}")
@@ -258,7 +285,7 @@ def work_histories(p):
         for _ in range(rng.randint(20, 60) // 4):
             r = rng.random()
             if r < 0.7:
-                ops.append(("add", gen_batch(rng), rng.random() < 0.5))
+                ops.append(("add", gen_batch(rng), rng.random() < 0.5, rng.random() < 0.35))
             elif r < 0.85:
                 ops.append(("reopen",))
             else:
@@ -758,7 +785,7 @@ def run(ck):
     quick = ck.tier == "quick"
     n = core.NPROC
     # (1)+(2) histories
-    seqs = [list(s) for L in (1, 2, 3) for s in itertools.product(range(4), repeat=L)]
+    seqs = [list(s) for L in (1, 2, 3) for s in itertools.product(range(len(BATCHES)), repeat=L)]
     payloads = [{"sequences": seqs[i::n], "random": (160 if quick else 5000) // n, "bulk": 1 if quick else 6, "seed": f"C09:{ck.seed}:{i}"} for i in range(n)]
     for r in core.pmap("vf.props.c09:work_histories", payloads, timeout=3000):
         ck.merge(r)
@@ -834,6 +861,7 @@ def run(ck):
     ck.need("filter_judgements", 50000)
     ck.need("batches_with_unserialisable", 50)
     ck.need("reopens", 50)
+    ck.need("adds_through_the_store_logger", 50)
     ck.need("bulk_histories", 8)
     ck.need("commit_orders", 3, "fewer than 3 distinct commit orders seen")
     ck.need("reader_reads", 20)
@@ -873,7 +901,7 @@ def replay(ck, path):
         ops = []
         for h in hist:
             if h[0] == "add":
-                ops.append(("add", [tuple(s) for s in h[1]], h[2]))
+                ops.append(("add", [tuple(s) for s in h[1]], h[2], "through-logger" in h[3:]))
             elif h[0] == "reopen":
                 ops.append(("reopen",))
             elif h[0] == "second-connection":
